@@ -380,6 +380,7 @@ func runC06Jwt(rep *TReport, raw json.RawMessage) {
 		mutated = b64json(hdr) + "." + b64json(payload) + "." + p[2]
 	case "header_not_an_object":
 		mutated = rawB64.EncodeToString([]byte(`["RS256"]`)) + "." + p[1] + "." + p[2]
+	case "retired_key_after_rotation", "current_key_after_rotation": // decided below, after the server has seen the genuine tokens
 	default:
 		panic("unknown jwt mutation " + r.Mut)
 	}
@@ -392,7 +393,7 @@ func runC06Jwt(rep *TReport, raw json.RawMessage) {
 	if r.Validator == "stateless" {
 		c2 := *w.Config
 		c2.TokenIntrospectionHandlers = fosite.TokenIntrospectionHandlers{&oauth2.StatelessJWTValidator{
-			Signer: &jwt.DefaultSigner{GetPrivateKey: func(context.Context) (interface{}, error) { return rk, nil }}, Config: &c2}}
+			Signer: &jwt.DefaultSigner{GetPrivateKey: func(context.Context) (interface{}, error) { return w.SignKey, nil }}, Config: &c2}}
 		sf := &fosite.Fosite{Store: w.Rec, Config: &c2}
 		introspect = func(t string, scopes ...string) (fosite.AccessRequester, error) {
 			_, ar, err := sf.IntrospectToken(w.ctx(1), t, fosite.AccessToken, &oauth2.JWTSession{}, scopes...)
@@ -402,6 +403,14 @@ func runC06Jwt(rep *TReport, raw json.RawMessage) {
 	for _, g := range []string{tok, other} {
 		_, gerr := introspect(g)
 		rep.cmp(raw, "genuine_jwt_accepted_first", true, gerr == nil, false)
+	}
+	if strings.HasSuffix(r.Mut, "_after_rotation") { // the signing key of the running server is replaced (no kid involved)
+		w.SignKey = rk2
+		if r.Mut == "current_key_after_rotation" {
+			o3 := w.Exec(1, Op{Op: "ccreds", Client: "A", Auth: "ok", Scopes: []string{"a"}})
+			mutated = w.tok("at", o3.New["at"])
+			payload = jwtPayload(mutated)
+		}
 	}
 	if r.Age == "expired" {
 		time.Sleep(time.Duration(cfg.LAT)*Tick + time.Second)
